@@ -170,6 +170,7 @@ def validate(ctx, recs, metas, label, nproc):
       raise T.MachineryError(f"trace {label} not consumed: " + res.out[-2500:])
     ctx.tlc(res, "trace validation " + label)
     skipped += len(res.values("SKIP"))
+    ctx.count(label + ":unknown_attribute_not_reported", len(res.values("NOTE")))
     seen = set()
     for v in res.values("FAIL"):
       _, r, j, clause, detail = v
@@ -248,7 +249,7 @@ def run(ctx):
   items = [(k, sh, asg) for k, (sh, asg) in enumerate(family)]
 
   # ---- 2. run the implementation ------------------------------------------------------------------------
-  nrich = 4000 if thorough else 260
+  nrich = 8000 if thorough else 260
   ncorrupt = 3
   chunks = [items[k:k + 100] for k in range(0, len(items), 100)]
   per = 20
